@@ -10,10 +10,10 @@ import (
 
 func init() {
 	register(&propCheck{
-		id:    "C16",
-		level: "other",
+		id:          "C16",
+		level:       "other",
 		explanation: "Static necessary conditions of 'a successful Fetch installs one complete stored version': (Y1) ILock typestate at every client outside the lock's own implementation — a release (explicit or deferred) is never reachable while the lock is not held (with this lock a release without holding deletes the other holder's directory), never twice, and no successful exit leaves the lock held; (Y2) in the lock-based cache every transfer/unpack runs only while the entry lock is held; (Y3) the immutable cache uploads under a name that ends in the '.part' marker and renames only after the verified transfer succeeded; (Y4) every listing of an entry directory by the immutable cache goes through the one function that skips '.part' and '.hash' files; (Y5) TransferFiles reports success only on the equal side of the comparison between the source hash and a freshly recomputed destination hash; (Y6) unpacking reads the verified temporary copy, never the shared file directly. Decided by a path-sensitive typestate dataflow and dominance rules on SSA; nothing is executed. Not decided: crash points, interleavings of several clients, strength of the hash, stale hash side files.",
-		run:   runC16,
+		run:         runC16,
 		assumptions: []string{
 			"the entry lock provides mutual exclusion while it is held (C01, C17)",
 			"rename within the entry directory is atomic on the backend",
